@@ -40,7 +40,7 @@ class NodeModel:
 
     def _lin(self, name: str) -> T.List[ast.ClassDef]:
         """Linearisation over the classes of this module (DFS, left to right; external bases are opaque).
-        (sa.core.Repo.mro re-walks the module for its import table on every call, far too slow for 40 classes.)"""
+        (kept local: only classes of this module matter here; sa.core.Repo.mro would do as well since its import table is cached.)"""
         if name not in self._mro:
             out: T.List[ast.ClassDef] = []
 
